@@ -490,7 +490,7 @@ Proof.
     { destruct (cget (d_invs d) (cid0, idgen_next (s_invgen callee))) as [i0|] eqn:Hi0; [|reflexivity]. exfalso.
       destruct (ca_inv _ _ (wf_calls_att _ _ WF) _ _ Hi0) as (s0 & Hs0 & Hle). cbn [fst snd] in *.
       rewrite Hl in Hs0. inversion Hs0; subst s0. lia. }
-    exists cid0, (idgen_next (s_invgen callee)), (reg_id r), (call_details cfg caller callee r opts proc).
+    exists cid0, (idgen_next (s_invgen callee)), (reg_id r), (call_details cfg caller callee cid0 r opts proc).
     split; [reflexivity|]. split; [cbn [set_invgen s_id]; exact Hid|]. left.
     split; [exact Hfresh|]. split; [exact Hb|].
     exists (first_inv d (s_id caller, q) cid0 callee r opts).
@@ -502,10 +502,10 @@ Proof.
         destruct (cw_timer _ W _ _ _ Ht) as (Hle & _). lia. }
       split; [reflexivity|]. unfold local_timer in Hlt. apply andb_true_iff in Hlt. destruct Hlt as [Hpos Hnf].
       split; [lia|].
-      destruct (call_details_spec cfg caller callee r opts proc) as (_ & _ & _ & D4 & _). rewrite D4.
+      destruct (call_details_spec cfg caller callee cid0 r opts proc) as (_ & _ & _ & D4 & _). rewrite D4.
       apply negb_true_iff in Hnf. rewrite Hnf, andb_false_r. reflexivity.
     + left. split; [reflexivity|]. split; [reflexivity|].
-      destruct (call_details_spec cfg caller callee r opts proc) as (_ & _ & _ & D4 & _).
+      destruct (call_details_spec cfg caller callee cid0 r opts proc) as (_ & _ & _ & D4 & _).
       unfold local_timer in Hlt. destruct (Z.ltb_spec 0 (opt_int64 opts "timeout")) as [Hpos|Hnp]; [|left; lia].
       right. cbn [andb] in Hlt. apply negb_false_iff in Hlt. rewrite D4, Hlt.
       destruct (Z.ltb_spec 0 (opt_int64 opts "timeout")); [cbn [andb]; discriminate|lia].
